@@ -13,6 +13,11 @@
 // points: before the write, and after the first n/2 bytes reached the file
 // (torn write). k = 0 never crashes and only numbers the operations.
 //
+// VerifMemFS(true) switches the shim to a small in-memory file system (flat
+// map path -> bytes+mode, every directory exists): the same operations, still
+// numbered, but no system call. It serves checks that run the woven code
+// millions of times and care about contents only (C35).
+//
 // Only process death is modelled (the property speaks of the process
 // stopping): no power loss, no reordering of operations the kernel has
 // already accepted.
@@ -28,6 +33,7 @@ import (
 	"io/fs"
 	goos "os"
 	"path/filepath"
+	"strconv"
 	"sync"
 	"time"
 )
@@ -166,6 +172,7 @@ var state struct {
 	crashAt int // 0 = never
 	mode    VerifMode
 	frozen  bool
+	logging bool // set by VerifArm: keep the operation log
 	log     []string
 	open    map[*File]struct{} // files opened through the shim and not yet closed
 }
@@ -175,6 +182,7 @@ var state struct {
 func VerifArm(k int, mode VerifMode) {
 	state.Lock()
 	state.points, state.crashAt, state.mode, state.frozen, state.log = 0, k, mode, false, nil
+	state.logging = true
 	state.Unlock()
 }
 
@@ -247,26 +255,24 @@ func point(op string) {
 		panic(VerifCrash{Point: n, Op: op})
 	}
 
-	state.log = append(state.log, fmt.Sprintf("%d %s", n, op))
+	if state.logging {
+		state.log = append(state.log, fmt.Sprintf("%d %s", n, op))
+	}
+
 	state.Unlock()
 }
 
 // ---- File -------------------------------------------------------------------
 
-// File wraps *os.File; every method that touches the file system is a crash
-// point.
+// File wraps *os.File (or an in-memory handle); every method that touches the
+// file system is a crash point.
 type File struct {
 	f   *goos.File
+	m   *memHandle
 	std bool
 }
 
-func wrap(f *goos.File, err error) (*File, error) {
-	if err != nil {
-		return nil, err
-	}
-
-	w := &File{f: f}
-
+func track(w *File) *File {
 	state.Lock()
 	if state.open == nil {
 		state.open = map[*File]struct{}{}
@@ -275,36 +281,73 @@ func wrap(f *goos.File, err error) (*File, error) {
 	state.open[w] = struct{}{}
 	state.Unlock()
 
-	return w, nil
+	return w
 }
 
-// VerifReal returns the underlying *os.File.
+func wrap(f *goos.File, err error) (*File, error) {
+	if err != nil {
+		return nil, err
+	}
+
+	return track(&File{f: f}), nil
+}
+
+func wrapMem(h *memHandle, err error) (*File, error) {
+	if err != nil {
+		return nil, err
+	}
+
+	return &File{m: h}, nil
+}
+
+// VerifReal returns the underlying *os.File (nil for an in-memory file).
 func (f *File) VerifReal() *goos.File { return f.f }
 
-func (f *File) Name() string { return f.f.Name() }
-func (f *File) Fd() uintptr  { return f.f.Fd() }
+func (f *File) Name() string {
+	if f.m != nil {
+		return f.m.path
+	}
+
+	return f.f.Name()
+}
+
+func (f *File) Fd() uintptr {
+	if f.m != nil {
+		return ^uintptr(0)
+	}
+
+	return f.f.Fd()
+}
+
+func (f *File) rawWrite(b []byte) (int, error) {
+	if f.m != nil {
+		return f.m.write(b)
+	}
+
+	return f.f.Write(b)
+}
 
 func (f *File) Write(b []byte) (int, error) {
 	if f.std {
 		return f.f.Write(b)
 	}
 
-	point(fmt.Sprintf("write %d bytes to %s", len(b), base(f.f.Name())))
+	point("write " + strconv.Itoa(len(b)) + " bytes to " + base(f.Name()))
 
 	if len(b) < 2 {
-		return f.f.Write(b)
+		return f.rawWrite(b)
 	}
 
 	half := len(b) / 2
 
-	n, err := f.f.Write(b[:half])
+	n, err := f.rawWrite(b[:half])
 	if err != nil {
 		return n, err
 	}
 
-	point(fmt.Sprintf("write (torn: %d of %d bytes written) to %s", half, len(b), base(f.f.Name())))
+	point("write (torn: " + strconv.Itoa(half) + " of " + strconv.Itoa(len(b)) + " bytes written) to " + base(f.Name()))
 
-	m, err := f.f.Write(b[half:])
+	m, err := f.rawWrite(b[half:])
 
 	return n + m, err
 }
@@ -312,8 +355,12 @@ func (f *File) Write(b []byte) (int, error) {
 func (f *File) WriteString(s string) (int, error) { return f.Write([]byte(s)) }
 
 func (f *File) WriteAt(b []byte, off int64) (int, error) {
+	if f.m != nil {
+		return 0, errMem("writeat", f.m.path)
+	}
+
 	if !f.std {
-		point(fmt.Sprintf("writeat %d bytes to %s", len(b), base(f.f.Name())))
+		point("writeat " + strconv.Itoa(len(b)) + " bytes to " + base(f.f.Name()))
 	}
 
 	return f.f.WriteAt(b, off)
@@ -330,59 +377,151 @@ func (f *File) ReadFrom(r io.Reader) (int64, error) {
 	return int64(n), err
 }
 
-func (f *File) Read(b []byte) (int, error)              { return f.f.Read(b) }
-func (f *File) ReadAt(b []byte, off int64) (int, error) { return f.f.ReadAt(b, off) }
+func (f *File) Read(b []byte) (int, error) {
+	if f.m != nil {
+		return f.m.read(b)
+	}
+
+	return f.f.Read(b)
+}
+
+func (f *File) ReadAt(b []byte, off int64) (int, error) {
+	if f.m != nil {
+		return 0, errMem("readat", f.m.path)
+	}
+
+	return f.f.ReadAt(b, off)
+}
+
 func (f *File) Seek(off int64, whence int) (int64, error) {
+	if f.m != nil {
+		return f.m.seek(off, whence)
+	}
+
 	return f.f.Seek(off, whence)
 }
-func (f *File) Stat() (FileInfo, error)              { return f.f.Stat() }
-func (f *File) ReadDir(n int) ([]DirEntry, error)    { return f.f.ReadDir(n) }
-func (f *File) Readdir(n int) ([]FileInfo, error)    { return f.f.Readdir(n) }
-func (f *File) Readdirnames(n int) ([]string, error) { return f.f.Readdirnames(n) }
-func (f *File) SetDeadline(t time.Time) error        { return f.f.SetDeadline(t) }
+
+func (f *File) Stat() (FileInfo, error) {
+	if f.m != nil {
+		return memStat(f.m.path)
+	}
+
+	return f.f.Stat()
+}
+
+func (f *File) ReadDir(n int) ([]DirEntry, error) {
+	if f.m != nil {
+		return nil, errMem("readdir", f.m.path)
+	}
+
+	return f.f.ReadDir(n)
+}
+
+func (f *File) Readdir(n int) ([]FileInfo, error) {
+	if f.m != nil {
+		return nil, errMem("readdir", f.m.path)
+	}
+
+	return f.f.Readdir(n)
+}
+
+func (f *File) Readdirnames(n int) ([]string, error) {
+	if f.m != nil {
+		return nil, errMem("readdir", f.m.path)
+	}
+
+	return f.f.Readdirnames(n)
+}
+
+func (f *File) SetDeadline(t time.Time) error {
+	if f.m != nil {
+		return nil
+	}
+
+	return f.f.SetDeadline(t)
+}
 
 func (f *File) Close() error {
-	if !f.std {
-		point("close " + base(f.f.Name()))
-
-		state.Lock()
-		delete(state.open, f)
-		state.Unlock()
+	if f.std {
+		return f.f.Close()
 	}
+
+	point("close " + base(f.Name()))
+
+	if f.m != nil {
+		return f.m.close()
+	}
+
+	state.Lock()
+	delete(state.open, f)
+	state.Unlock()
 
 	return f.f.Close()
 }
 
 func (f *File) Sync() error {
-	if !f.std {
-		point("sync " + base(f.f.Name()))
+	if f.std {
+		return f.f.Sync()
+	}
+
+	point("sync " + base(f.Name()))
+
+	if f.m != nil {
+		return nil
 	}
 
 	return f.f.Sync()
 }
 
 func (f *File) Truncate(size int64) error {
-	if !f.std {
-		point(fmt.Sprintf("truncate %s to %d", base(f.f.Name()), size))
+	if f.std {
+		return f.f.Truncate(size)
+	}
+
+	point("truncate " + base(f.Name()) + " to " + strconv.FormatInt(size, 10))
+
+	if f.m != nil {
+		return memTruncate(f.m.path, size)
 	}
 
 	return f.f.Truncate(size)
 }
 
 func (f *File) Chmod(mode FileMode) error {
-	if !f.std {
-		point(fmt.Sprintf("fchmod %s %04o", base(f.f.Name()), mode.Perm()))
+	if f.std {
+		return f.f.Chmod(mode)
+	}
+
+	point("fchmod " + base(f.Name()) + " " + octal(mode))
+
+	if f.m != nil {
+		return memChmod(f.m.path, mode)
 	}
 
 	return f.f.Chmod(mode)
 }
 
 func (f *File) Chown(uid, gid int) error {
-	if !f.std {
-		point("fchown " + base(f.f.Name()))
+	if f.std {
+		return f.f.Chown(uid, gid)
+	}
+
+	point("fchown " + base(f.Name()))
+
+	if f.m != nil {
+		return nil
 	}
 
 	return f.f.Chown(uid, gid)
+}
+
+func octal(mode FileMode) string {
+	s := strconv.FormatUint(uint64(mode.Perm()), 8)
+	for len(s) < 4 {
+		s = "0" + s
+	}
+
+	return s
 }
 
 // ---- package-level file-system operations -----------------------------------
@@ -390,11 +529,19 @@ func (f *File) Chown(uid, gid int) error {
 func CreateTemp(dir, pattern string) (*File, error) {
 	point("createtemp " + pattern)
 
+	if memOn() {
+		return wrapMem(memCreateTemp(dir, pattern))
+	}
+
 	return wrap(goos.CreateTemp(dir, pattern))
 }
 
 func MkdirTemp(dir, pattern string) (string, error) {
 	point("mkdirtemp " + pattern)
+
+	if memOn() {
+		return "", errMem("mkdirtemp", dir)
+	}
 
 	return goos.MkdirTemp(dir, pattern)
 }
@@ -402,17 +549,29 @@ func MkdirTemp(dir, pattern string) (string, error) {
 func Create(name string) (*File, error) {
 	point("create(truncate) " + base(name))
 
+	if memOn() {
+		return wrapMem(memOpen(name, O_RDWR|O_CREATE|O_TRUNC, 0o666))
+	}
+
 	return wrap(goos.Create(name))
 }
 
 func Open(name string) (*File, error) {
 	point("open " + base(name))
 
+	if memOn() {
+		return wrapMem(memOpen(name, O_RDONLY, 0))
+	}
+
 	return wrap(goos.Open(name))
 }
 
 func OpenFile(name string, flag int, perm FileMode) (*File, error) {
-	point(fmt.Sprintf("openfile %s flags=%#x", base(name), flag))
+	point("openfile " + base(name) + " flags=0x" + strconv.FormatInt(int64(flag), 16))
+
+	if memOn() {
+		return wrapMem(memOpen(name, flag, perm))
+	}
 
 	return wrap(goos.OpenFile(name, flag, perm))
 }
@@ -428,6 +587,10 @@ func NewFile(fd uintptr, name string) *File {
 
 func ReadFile(name string) ([]byte, error) {
 	point("readfile " + base(name))
+
+	if memOn() {
+		return memReadFile(name)
+	}
 
 	return goos.ReadFile(name)
 }
@@ -451,11 +614,19 @@ func WriteFile(name string, data []byte, perm FileMode) error {
 func ReadDir(name string) ([]DirEntry, error) {
 	point("readdir " + base(name))
 
+	if memOn() {
+		return memReadDir(name)
+	}
+
 	return goos.ReadDir(name)
 }
 
 func Stat(name string) (FileInfo, error) {
 	point("stat " + base(name))
+
+	if memOn() {
+		return memStat(name)
+	}
 
 	return goos.Stat(name)
 }
@@ -463,11 +634,19 @@ func Stat(name string) (FileInfo, error) {
 func Lstat(name string) (FileInfo, error) {
 	point("lstat " + base(name))
 
+	if memOn() {
+		return memStat(name)
+	}
+
 	return goos.Lstat(name)
 }
 
 func Chmod(name string, mode FileMode) error {
-	point(fmt.Sprintf("chmod %s %04o", base(name), mode.Perm()))
+	point("chmod " + base(name) + " " + octal(mode))
+
+	if memOn() {
+		return memChmod(name, mode)
+	}
 
 	return goos.Chmod(name, mode)
 }
@@ -475,11 +654,19 @@ func Chmod(name string, mode FileMode) error {
 func Chown(name string, uid, gid int) error {
 	point("chown " + base(name))
 
+	if memOn() {
+		return nil
+	}
+
 	return goos.Chown(name, uid, gid)
 }
 
 func Chtimes(name string, atime, mtime time.Time) error {
 	point("chtimes " + base(name))
+
+	if memOn() {
+		return nil
+	}
 
 	return goos.Chtimes(name, atime, mtime)
 }
@@ -487,11 +674,19 @@ func Chtimes(name string, atime, mtime time.Time) error {
 func Rename(oldpath, newpath string) error {
 	point("rename " + base(oldpath) + " -> " + base(newpath))
 
+	if memOn() {
+		return memRename(oldpath, newpath)
+	}
+
 	return goos.Rename(oldpath, newpath)
 }
 
 func Link(oldname, newname string) error {
 	point("link " + base(oldname) + " -> " + base(newname))
+
+	if memOn() {
+		return memLink(oldname, newname)
+	}
 
 	return goos.Link(oldname, newname)
 }
@@ -499,13 +694,27 @@ func Link(oldname, newname string) error {
 func Symlink(oldname, newname string) error {
 	point("symlink " + base(oldname) + " -> " + base(newname))
 
+	if memOn() {
+		return errMem("symlink", newname)
+	}
+
 	return goos.Symlink(oldname, newname)
 }
 
-func Readlink(name string) (string, error) { return goos.Readlink(name) }
+func Readlink(name string) (string, error) {
+	if memOn() {
+		return "", errMem("readlink", name)
+	}
+
+	return goos.Readlink(name)
+}
 
 func Remove(name string) error {
 	point("remove " + base(name))
+
+	if memOn() {
+		return memRemove(name)
+	}
 
 	return goos.Remove(name)
 }
@@ -513,11 +722,21 @@ func Remove(name string) error {
 func RemoveAll(name string) error {
 	point("removeall " + base(name))
 
+	if memOn() {
+		memRemoveAll(name)
+
+		return nil
+	}
+
 	return goos.RemoveAll(name)
 }
 
 func Mkdir(name string, perm FileMode) error {
 	point("mkdir " + base(name))
+
+	if memOn() {
+		return nil
+	}
 
 	return goos.Mkdir(name, perm)
 }
@@ -525,11 +744,19 @@ func Mkdir(name string, perm FileMode) error {
 func MkdirAll(name string, perm FileMode) error {
 	point("mkdirall " + base(name))
 
+	if memOn() {
+		return nil
+	}
+
 	return goos.MkdirAll(name, perm)
 }
 
 func Truncate(name string, size int64) error {
-	point(fmt.Sprintf("truncate %s to %d", base(name), size))
+	point("truncate " + base(name) + " to " + strconv.FormatInt(size, 10))
+
+	if memOn() {
+		return memTruncate(name, size)
+	}
 
 	return goos.Truncate(name, size)
 }
